@@ -35,12 +35,14 @@ def Forced (hp : Heap) : List Val → LV → Prop
     | .seq ys => ys = []
     | .adaptor hc _ => ∃ n, hp.hs[hc]? = some (.done none, n)
     | .cons _ _ => False
+    | .nilIface => False
   | x :: xs, l => match l with
     | .nil => False
     | .seq ys => ys = x :: xs
     | .cons h t => h = x ∧ Forced hp xs t
     | .adaptor hc tc => ∃ n m t, hp.hs[hc]? = some (.done (some x), n) ∧
         hp.ts[tc]? = some (.done t, m) ∧ Forced hp xs t
+    | .nilIface => False
 
 theorem Forced.seq (hp : Heap) (xs : List Val) : Forced hp xs (.seq xs) := by
   cases xs <;> simp [Forced]
@@ -130,6 +132,7 @@ theorem toSeq_forced : ∀ (xs : List Val) (l : LV) (acc : List Val) (fuel : Nat
     | seq ys =>
       simp only [Forced] at hF; subst hF
       rw [toSeq_step_nil (isEmpty_seq (f + 1) [] hp lg)]; simp
+    | nilIface => exact absurd hF id
     | adaptor hc tc =>
       obtain ⟨n, hcell⟩ := hF
       have e : LL.isEmpty (f + 2) (.adaptor hc tc) hp lg = (.ok true, hp, lg) := by
@@ -151,6 +154,7 @@ theorem toSeq_forced : ∀ (xs : List Val) (l : LV) (acc : List Val) (fuel : Nat
       rw [toSeq_step_cons (isEmpty_seq (f + 1) (x :: xs) hp lg) (head_seq (f + 1) x xs hp lg)
         (tail_seq (f + 1) x xs hp lg), ih (.seq xs) (acc ++ [x]) (f + 2) hp lg (Forced.seq hp xs) hfu']
       simp
+    | nilIface => exact absurd hF id
     | adaptor hc tc =>
       obtain ⟨n, m, t, h1, h2, hF⟩ := hF
       have e1 : LL.isEmpty (f + 2) (.adaptor hc tc) hp lg = (.ok false, hp, lg) := by
@@ -189,6 +193,7 @@ theorem toSeq_forces : ∀ (xs : List Val) (S : Sty) (hp : Heap) (l : LV) (acc :
       have hys : ys = [] := by have := hV.1; cases this; rfl
       subst hys
       exact ⟨S, hp, lg, by rw [toSeq_step_nil (isEmpty_seq f [] hp lg)]; simp, hW, Ext.refl S, DoneSub.refl hp, rfl⟩
+    | nilIface => exact hV.elim
     | adaptor hc tc =>
       obtain ⟨h1, h2, h3, _⟩ := hV
       have hn2 := Cons.need_hs hW.cons h1
@@ -224,6 +229,7 @@ theorem toSeq_forces : ∀ (xs : List Val) (S : Sty) (hp : Heap) (l : LV) (acc :
       refine ⟨S', hp', lg', ?_, hW', hE, hD, rfl⟩
       rw [toSeq_step_cons (isEmpty_seq f (x :: xs) hp lg) (head_seq f x xs hp lg) (tail_seq f x xs hp lg), e]
       simp
+    | nilIface => exact hV.elim
     | adaptor hc tc =>
       obtain ⟨h1, h2, h3, h4⟩ := hV
       obtain ⟨t1, t2, t3, t4⟩ := h4 rfl
